@@ -80,47 +80,52 @@ for cls, sig in (('dsplib::slice_t<*>::slice_t', '(const dsplib::slice_t<'),
 ASSIGN_POST = [
     ('length', '_base.len == old._base.len'),
     ('written', 'forall(lambda k: Implies(And(0 <= k, k < _nc), _base[_i1 + k*_m] == SRC(k)))'),
+    # the same fact indexed by array position for unit stride (a consequence of 'written', stated because it is the form a
+    # solver can instantiate by matching on _base[j])
+    ('written_unit', 'Implies(_m == 1, forall(lambda j: Implies(And(_i1 <= j, j < _i1 + _nc), _base[j] == SRC((j - _i1)))))'),
     ('others', 'forall(lambda j: Implies(And(0 <= j, j < _base.len, Not(written(this, j))), _base[j] == old._base[j]))'),
     ('slice_unchanged', 'same_slice(this, old.this)'),
 ]
 
 
 def _post(src):
-    return [(lab, e.replace('SRC(k)', src)) for lab, e in ASSIGN_POST]
+    import re as _re
+    srcj = _re.sub(r'\bk\b', '(j - _i1)', src)
+    return [(lab, e.replace('SRC(k)', src).replace('SRC((j - _i1))', srcj)) for lab, e in ASSIGN_POST]
 
 
 fn(SL + 'operator=', TU, sig='(const const_slice_t<', key='slice_t::operator=(const_slice)', serves=['C04', 'C05'],
-   extra_env=ENV, returns_ref='this', assigns=['this._base'], body_assumes=['INSLICE_AX()'],
+   extra_env=ENV, returns_ref='this', assigns=['this._base'], body_assumes=['INSLICE_AX()'], chain=True,
    requires=['slice_ok(this, _base.len)', 'slice_ok(rhs, rhs._base.len)'],
    scenarios=[{'name': 'distinct'}, {'name': 'same_array', 'ref_alias': {'rhs._base': 'ext_this__base'}}],
    throws='_nc != rhs._nc',
    ensures=_post('old.rhs._base[rhs._i1 + k*rhs._m]'))
 
 fn(SL + 'operator=', TU, sig='(const slice_t<', key='slice_t::operator=(slice)', serves=['C04', 'C05'],
-   extra_env=ENV, returns_ref='this', assigns=['this._base'], body_assumes=['INSLICE_AX()'],
+   extra_env=ENV, returns_ref='this', assigns=['this._base'], body_assumes=['INSLICE_AX()'], chain=True,
    requires=['slice_ok(this, _base.len)', 'slice_ok(rhs, rhs._base.len)'],
    scenarios=[{'name': 'distinct'}, {'name': 'same_array', 'ref_alias': {'rhs._base': 'ext_this__base'}}],
    throws='_nc != rhs._nc',
    ensures=_post('old.rhs._base[rhs._i1 + k*rhs._m]'))
 
 fn(SL + 'operator=', TU, sig='(const base_array<', key='slice_t::operator=(array)', serves=['C04', 'C05'],
-   extra_env=ENV, returns_ref='this', assigns=['this._base'], body_assumes=['INSLICE_AX()'],
+   extra_env=ENV, returns_ref='this', assigns=['this._base'], body_assumes=['INSLICE_AX()'], chain=True,
    requires=['slice_ok(this, _base.len)'],
    scenarios=[{'name': 'distinct'}],
    throws='_nc != rhs.len',
    ensures=_post('rhs[k]'))
 
 fn(SL + 'operator=', TU, sig='(const double &)', key='slice_t::operator=(real scalar)', serves=['C04', 'C05'],
-   extra_env=ENV, returns_ref='this', assigns=['this._base'], body_assumes=['INSLICE_AX()'],
+   extra_env=ENV, returns_ref='this', assigns=['this._base'], body_assumes=['INSLICE_AX()'], chain=True,
    requires=['slice_ok(this, _base.len)'], throws='False',
    ensures=_post('value'))
 fn(SL + 'operator=', TU, sig='(const dsplib::cmplx_t &)', key='slice_t::operator=(cmplx scalar)', serves=['C04', 'C05'],
-   extra_env=ENV, returns_ref='this', assigns=['this._base'], body_assumes=['INSLICE_AX()'],
+   extra_env=ENV, returns_ref='this', assigns=['this._base'], body_assumes=['INSLICE_AX()'], chain=True,
    requires=['slice_ok(this, _base.len)'], throws='False',
    ensures=_post('value'))
 
 fn(SL + 'operator=', TU, sig='(const std::initializer_list<', key='slice_t::operator=(list)', serves=['C04', 'C05'],
-   extra_env=ENV, returns_ref='this', assigns=['this._base'], body_assumes=['INSLICE_AX()'],
+   extra_env=ENV, returns_ref='this', assigns=['this._base'], body_assumes=['INSLICE_AX()'], chain=True,
    requires=['slice_ok(this, _base.len)'],
    throws='_nc != rhs.len',
    ensures=_post('rhs[k]'))
